@@ -401,7 +401,7 @@ Definition prepared_frame (is_srv cp : bool) (l : Z) (t : N) (p : bytes) (ks : l
   let c := mkC is_srv (defaultWBuf + maxHdr) in
   let* r := do_write_message c (cst0 (mws0 ks) cp l) t p wchunks cchunks in
   let '(s1, e) := r in
-  Ok (concat (rev (out (mw s1))), keys (mw s1), e).
+  Ok (concat (rev_append (out (mw s1)) []), keys (mw s1), e).
 
 Definition pkey_eqb (a b : N * bool * bool * Z) : bool :=
   let '(i, s1, c1, l1) := a in let '(j, s2, c2, l2) := b in
@@ -629,7 +629,8 @@ Fixpoint run_ops (c : cfg) (pms : list (N * bytes)) (s : cst) (ops : list sx) (c
       run_ops c pms (fst r) rest (snd r :: codes)
   end.
 
-Definition wire_of (s : cst) : bytes := concat (rev (out (mw s))).
+(* rev_append: List.rev is quadratic and a session can have 10^5 transport writes *)
+Definition wire_of (s : cst) : bytes := concat (rev_append (out (mw s)) []).
 
 Fixpoint sx_pms (l : list sx) : list (N * bytes) :=
   match l with
